@@ -99,6 +99,11 @@ func RunC19(c *Ctx) {
 			simple("DecodeBool", func(d []byte) error { _, e := rjson.DecodeBool(d, &bl); return e }),
 			simple("DecodeFloat64(null)", func(d []byte) error { _, e := rjson.DecodeFloat64(d, &f64); return e }),
 			simple("DecodeInt64(null)", func(d []byte) error { _, e := rjson.DecodeInt64(d, &i64); return e }),
+			simple("DecodeInt32(null)", func(d []byte) error { _, e := rjson.DecodeInt32(d, &i32); return e }),
+			simple("DecodeInt(null)", func(d []byte) error { _, e := rjson.DecodeInt(d, &in); return e }),
+			simple("DecodeUint64(null)", func(d []byte) error { _, e := rjson.DecodeUint64(d, &u64); return e }),
+			simple("DecodeUint32(null)", func(d []byte) error { _, e := rjson.DecodeUint32(d, &u32); return e }),
+			simple("DecodeUint(null)", func(d []byte) error { _, e := rjson.DecodeUint(d, &un); return e }),
 		},
 		"token": {
 			simple("NextToken", func(d []byte) error { _, _, e := rjson.NextToken(d); return e }),
@@ -296,5 +301,171 @@ func RunC19(c *Ctx) {
 		doc.Input = []byte(s)
 		doc.Desc = "W1 seed"
 		sink(doc)
+	}
+	c19Histories(c)
+}
+
+type failAtHandler struct {
+	k, n   int
+	garbage int
+	err    error
+}
+
+func (f *failAtHandler) answer() (int, error) {
+	i := f.n
+	f.n++
+	if i == f.k {
+		return f.garbage, f.err
+	}
+	return 0, nil
+}
+func (f *failAtHandler) HandleArrayValue(d []byte) (int, error)     { return f.answer() }
+func (f *failAtHandler) HandleObjectValue(k, d []byte) (int, error) { return f.answer() }
+
+type reentrantSkipHandler struct{ buf *rjson.Buffer }
+
+func (r reentrantSkipHandler) HandleArrayValue(d []byte) (int, error) { return rjson.SkipValue(d, r.buf) }
+func (r reentrantSkipHandler) HandleObjectValue(k, d []byte) (int, error) {
+	return rjson.SkipValueFast(d, r.buf)
+}
+
+// c19Histories: the Buffer precondition of C19 is "already used on a document at least as deeply
+// nested" - whatever happened to the Buffer in between. After a warm-up call, the Buffer goes
+// through a disturbance (a traversal stopped by a handler error on a scalar / string / container
+// member, a garbage offset, a malformed or truncated document, another function, re-entrant
+// sharing) and then ONE successful call is measured on its own. The whole three-step history is
+// repeated three times; a violation needs an allocation in the measured call every time.
+// (Seeded change C19r2-m1 dropped the grown stack on one error exit: the next successful call
+// re-grew it once, which a loop of identical calls can never see.)
+func c19Histories(c *Ctx) {
+	type target struct {
+		name string
+		call func(d []byte, b *rjson.Buffer) error
+	}
+	var nah rjson.ArrayValueHandler = nopArrayHandler{}
+	var noh rjson.ObjectValueHandler = nopObjectHandler{}
+	targets := []target{
+		{"SkipValue", func(d []byte, b *rjson.Buffer) error { _, e := rjson.SkipValue(d, b); return e }},
+		{"SkipValueFast", func(d []byte, b *rjson.Buffer) error { _, e := rjson.SkipValueFast(d, b); return e }},
+		{"Valid", func(d []byte, b *rjson.Buffer) error {
+			if !rjson.Valid(d, b) {
+				return errHandlerAbort
+			}
+			return nil
+		}},
+		{"HandleArrayValues", func(d []byte, b *rjson.Buffer) error { _, e := rjson.HandleArrayValues(d, nah, b); return e }},
+		{"HandleObjectValues", func(d []byte, b *rjson.Buffer) error { _, e := rjson.HandleObjectValues(d, noh, b); return e }},
+	}
+	type disturbance struct {
+		name string
+		run  func(d []byte, b *rjson.Buffer)
+	}
+	var dist []disturbance
+	for k := 0; k < 4; k++ {
+		k := k
+		dist = append(dist, disturbance{fmt.Sprintf("traversal stopped by a handler error at call %d", k), func(d []byte, b *rjson.Buffer) {
+			f := &failAtHandler{k: k, err: errHandlerAbort}
+			rjson.HandleArrayValues(d, f, b)
+			f.n = 0
+			rjson.HandleObjectValues(d, f, b)
+		}})
+	}
+	for _, g := range []int{-1, 1 << 40, 1} {
+		g := g
+		dist = append(dist, disturbance{fmt.Sprintf("handler returning offset %d at call 1", g), func(d []byte, b *rjson.Buffer) {
+			f := &failAtHandler{k: 1, garbage: g}
+			rjson.HandleArrayValues(d, f, b)
+			f.n = 0
+			rjson.HandleObjectValues(d, f, b)
+		}})
+	}
+	dist = append(dist,
+		disturbance{"truncated copy of the document through all five functions", func(d []byte, b *rjson.Buffer) {
+			t := d[:len(d)*2/3]
+			rjson.SkipValue(t, b)
+			rjson.SkipValueFast(t, b)
+			rjson.Valid(t, b)
+			rjson.HandleArrayValues(t, nah, b)
+			rjson.HandleObjectValues(t, noh, b)
+		}},
+		disturbance{"document with a wrong closer and with trailing garbage", func(d []byte, b *rjson.Buffer) {
+			t := append(append([]byte(nil), d...), ']', 'x')
+			rjson.Valid(t, b)
+			if len(t) > 3 {
+				t[len(t)-3] = '|'
+			}
+			rjson.SkipValue(t, b)
+			rjson.HandleArrayValues(t, nah, b)
+			rjson.HandleObjectValues(t, noh, b)
+		}},
+		disturbance{"the other four functions on the same document", func(d []byte, b *rjson.Buffer) {
+			rjson.SkipValueFast(d, b)
+			rjson.HandleObjectValues(d, noh, b)
+			rjson.Valid(d, b)
+			rjson.HandleArrayValues(d, nah, b)
+			rjson.SkipValue(d, b)
+		}},
+		disturbance{"re-entrant sharing: handlers skip members with the enclosing call's Buffer", func(d []byte, b *rjson.Buffer) {
+			rjson.HandleArrayValues(d, reentrantSkipHandler{b}, b)
+			rjson.HandleObjectValues(d, reentrantSkipHandler{b}, b)
+		}},
+		disturbance{"a shallower and a malformed shallower document", func(d []byte, b *rjson.Buffer) {
+			rjson.Valid([]byte(`[1,{"a":[true]}]`), b)
+			rjson.SkipValue([]byte(`[1,{"a":[tru]}]`), b)
+			rjson.HandleObjectValues([]byte(`{"a":{"b":[1,2,}}`), noh, b)
+		}},
+	)
+	var docs [][]byte
+	for i := 0; i < 400 && len(docs) < 120; i++ {
+		d := workload.W3Valid(c.Seed, uint64(i)+7000)
+		if len(d) > 12 && (d[0] == '[' || d[0] == '{') {
+			docs = append(docs, d)
+		}
+	}
+	for _, dp := range []int{2, 5, 40, 700, 6000} {
+		for _, pat := range [][]int{{0}, {2}, {0, 2}, {1, 3}} {
+			docs = append(docs, workload.BuildNest(pat, dp, "0", dp))
+		}
+	}
+	docs = append(docs, []byte(`{"id":7,"tags":["a","b"],"n":{"x":[1,2,{"y":null}]},"z":true}`), []byte(`[1,{"a":1},[2,[3]],"s",null]`))
+	cs := &h.Case{Family: "C19-history"}
+	for di, d := range docs {
+		if c.NShards > 1 && di%c.NShards != c.Shard {
+			continue
+		}
+		cs.Input = d
+		c.Mark("C19 history", d)
+		for _, tg := range targets {
+			probe := &rjson.Buffer{}
+			if tg.call(d, probe) != nil {
+				continue // this function does not succeed on this document: outside the property
+			}
+			for _, ds := range dist {
+				var deltas [3]uint64
+				always := true
+				for rep := 0; rep < 3; rep++ {
+					b := &rjson.Buffer{}
+					tg.call(d, b) // warm-up on this very document
+					tg.call(d, b)
+					ds.run(d, b)
+					runtime.ReadMemStats(&msA)
+					err := tg.call(d, b)
+					runtime.ReadMemStats(&msB)
+					deltas[rep] = msB.Mallocs - msA.Mallocs
+					c.Rec.Evals(4)
+					if err != nil || deltas[rep] == 0 {
+						always = false
+					}
+				}
+				c.Rec.C("history_measurements")
+				c.Rec.R.Cases++
+				c.Rec.R.Nontrivial++
+				if always {
+					cs.Desc = fmt.Sprintf("warm-up, then %s, then one measured %s call", ds.name, tg.name)
+					c.Rec.AddViolation(h.Violation{Property: c.Prop, Oracle: "a successful call allocates after the warmed Buffer went through another call", Entry: tg.name, Family: cs.Family, Desc: cs.Desc,
+						InputB64: b64(d), InputQ: h.Quote(d), Script: ds.name, Expected: "0 heap allocations in the measured call", Observed: fmt.Sprintf("%d, %d, %d allocations in three repetitions of the history", deltas[0], deltas[1], deltas[2]), Seed: c.Seed, Tier: c.Tier})
+				}
+			}
+		}
 	}
 }
